@@ -110,6 +110,15 @@ func runC01(c *Ctx) {
 				signer, verifier, via = k.Signer, k.Verifier, "odd-rsa-size"
 			}
 		}
+		if i%31 == 9 && k.Priv != nil {
+			// the same private key behind an opaque crypto.Signer (an HSM / KMS wrapper): the library's
+			// generic path for that key family
+			if ws, err := cose.NewSigner(k.Alg, refcrypto.WrapSigner{K: k.Priv}); err == nil {
+				signer, verifier, via = ws, k.Verifier, "opaque-crypto.Signer"
+			} else {
+				rec.Violate("chain:new-signer", "opaque/"+k.Name, "NewSigner refused an opaque crypto.Signer over a matching key: "+err.Error(), map[string]any{"alg": k.Name})
+			}
+		}
 		mode := r.Intn(3)
 		ext := gen.External(r)
 		if mode == 2 && len(ext) == 0 {
